@@ -79,6 +79,11 @@ def loadInterval (ni : Nat) : Nat := (4 * ni * 20 + 29) / 30
 def holdsC13Choose (pre post : Band) (nowMs : Nat) : Bool :=
   decide (post.helloTs ≥ nowMs + loadInterval pre.ni) && decide (post.ni = pre.ni)
 
+/-- band_on_hello_received observed: r counts the Hellos heard in the block — each one, without wrap-around below 2^32 — and the
+    count and the schedule are left alone -/
+def holdsC13Heard (pre post : Band) : Bool :=
+  (decide (post.r = pre.r + 1) || decide (pre.r = 4294967295)) && decide (post.ni = pre.ni) && decide (post.helloTs = pre.helloTs)
+
 /-- automata_tick observed on the RepeatBand state: when the tick ends a block (the block deadline is re-armed to
     now + 300 ms) the count follows the formula and the next Hello is scheduled no sooner than the load formula
     for the NEW count allows — also when the same tick has just sent a Hello -/
